@@ -431,8 +431,25 @@ def run_bare(case):
         flat_ = flat_[0]
     require(models.deep_eq(flat_, want), "requested-cell-wrong",
             f"{got!r:.200} vs {want!r}")
+    if case.get("via_runner"):
+        # the same spelling through a Runner, next to a sub-grid
+        models.LOG.clear()
+        r = x.Runner(fn, "out")
+        with under_test("Runner.run_combos(grid, cases=<one dict>)"):
+            ds = r.run_combos({"zz": [1, 2]}, cases=dict(kw), verbosity=0)
+        calls = sorted(models.read_log(None))
+        wantc = sorted(models.canon_kw(dict(kw, zz=z)) for z in (1, 2))
+        require(calls == wantc, "call-log",
+                f"one case {kw!r} x zz=[1, 2] requested; the function was "
+                f"called with {calls!r:.300}")
+        for z in (1, 2):
+            require(int(ds["out"].sel(zz=z).values.ravel()[0]) ==
+                    models.result_of("int", dict(kw, zz=z)),
+                    "requested-cell-wrong", f"zz={z}: {ds['out'].values!r}")
     return {"nontrivial": any(isinstance(v, tuple) for v in kw.values()),
-            "classes": ["bare-dict-case"]}
+            "classes": ["bare-dict-case",
+                        "via-runner" if case.get("via_runner") else
+                        "combo_runner-only"]}
 
 
 @st.composite
@@ -448,7 +465,9 @@ def bare_strategy(draw):
                 [0.5, 1.5]), min_size=ln, max_size=ln))      # -> a tuple
         else:
             kw[a] = draw(st.integers(0, 9) | st.sampled_from(["p", "q"]))
-    return {"kw": kw}
+    return {"kw": kw,
+            "via_runner": not any(isinstance(v, list) for v in kw.values())
+            and "zz" not in kw}
 
 
 # ----------------------------------------- several runs on one Runner object
